@@ -163,7 +163,7 @@ def rule_coherence(ctx):
     """C03.c: Python-side context == engine-side search path after each context-changing statement."""
     prog = ctx.prog
     n = 0
-    for kind in ("USE DATABASE", "USE SCHEMA", "USE SCHEMA qualified"):
+    for kind in ("USE DATABASE", "USE SCHEMA", "USE SCHEMA qualified", "USE DATABASE current", "USE SCHEMA current"):
         for tr in traces(prog, kind):
             if tr.path.outcome != "return":
                 continue
